@@ -65,6 +65,21 @@ func init() {
 		}
 		g.def("CopyFileForHardLink", pos(fc), "same inode: nothing; otherwise remove the destination, link the source or copy its contents",
 			"def hardLinkCopyReplaces : Bool := true")
+		// the write-back cache of the HyperLogLog type around checkpoints: Backup flushes it BEFORE the checkpoint request is queued
+		// (what is acknowledged is then in the engine the checkpoint is taken of), and reOpenEng — the tail of every restore —
+		// starts with a FRESH cache (nothing of the history before the restore survives in memory)
+		anchor("Backup")
+		bb := norm(src(findFunc("rockredis/rockredis.go", "RockDB.Backup").Body))
+		inOrder("Backup", bb, "r.hllCache.Flush()", "case r.backupC <- bi:")
+		g.def("Backup", "rockredis/rockredis.go", "r.hllCache.Flush() precedes `r.backupC <- bi`", "def backupFlushesCacheFirst : Bool := true")
+		anchor("reOpenEng")
+		fr := findFunc("rockredis/rockredis.go", "RockDB.reOpenEng")
+		rb := norm(src(fr.Body))
+		inOrder("reOpenEng", rb, "hcache, err := newHLLCache(HLLReadCacheSize, HLLWriteCacheSize, r)", "r.hllCache = hcache", "err = r.rockEng.OpenEng()")
+		if strings.Contains(rb[:strings.Index(rb, "r.hllCache = hcache")], "if r.hllCache") {
+			fail("reOpenEng no longer replaces the HyperLogLog cache unconditionally")
+		}
+		g.def("reOpenEng", pos(fr), "a fresh HyperLogLog cache is installed unconditionally before the engine is opened", "def reopenStartsWithFreshCache : Bool := true")
 		g.write()
 	}
 }
